@@ -5,6 +5,7 @@ import (
 	"bytes"
 	"encoding/json"
 	"fmt"
+	"math/big"
 	"sort"
 	"strconv"
 	"strings"
@@ -47,6 +48,59 @@ var attrValues = map[string]string{"backgroundColor": "black", "color": "red", "
 	"opacity": "0.5", "origin": "10% 80%", "overflow": "visible", "padding": "1px 2px", "showBackground": "whenActive", "textAlign": "center",
 	"textDecoration": "underline", "textOutline": "black 1px", "unicodeBidi": "embed", "visibility": "hidden", "wrapOption": "noWrap",
 	"writingMode": "tbrl", "zIndex": "5"}
+
+// further well-formed values of each attribute (boundary-complete: empty, keyword alternatives, several components,
+// '%' / px / c units, the colour notations, quotes and commas, sign / zero / leading zeros / 32-bit limits of the one
+// integer-typed attribute). Offered at an "attr.value" choice point below every attribute that carries its
+// attrValues entry, and all of them x carrier in the values core.
+var attrAlt = map[string][]string{
+	"backgroundColor": {"", "transparent", "#000000", "#00000080", "rgba(0,0,0,128)", "rgb(255, 255, 255)"},
+	"color":           {"", "white", "#FFFFFF", "#ffffffff", "rgba(255,255,255,255)", "rgb(0,0,0)"},
+	"direction":       {"", "ltr"},
+	"display":         {"", "auto"},
+	"displayAlign":    {"", "before", "center"},
+	"extent":          {"", "auto", "640px 480px", "100% 100%", "80.5% 10.25%", "1c 1c"},
+	"fontFamily":      {"", "default", "proportionalSansSerif", "Arial, Helvetica, sansSerif", `"Times New Roman", serif`, "'Courier New'", "\uff2d\uff33 \u30b4\u30b7\u30c3\u30af"},
+	"fontSize":        {"", "16px", "1c", "1c 2c", "0.8em", "100%"},
+	"fontStyle":       {"", "normal", "oblique"},
+	"fontWeight":      {"", "normal"},
+	"lineHeight":      {"", "normal", "20px", "1.5c"},
+	"opacity":         {"", "0", "1", "1.0", "0.25"},
+	"origin":          {"", "auto", "0px 0px", "0% 0%", "10.5% 79.25%"},
+	"overflow":        {"", "hidden"},
+	"padding":         {"", "0px", "5%", "1c 2c 1c", "1px 2px 3px 4px"},
+	"showBackground":  {"", "always"},
+	"textAlign":       {"", "left", "right", "start", "end"},
+	"textDecoration":  {"", "none", "noUnderline lineThrough", "underline overline lineThrough"},
+	"textOutline":     {"", "none", "1px", "red 2px 3px", "#00000080 5% 10%"},
+	"unicodeBidi":     {"", "normal", "bidiOverride"},
+	"visibility":      {"", "visible"},
+	"wrapOption":      {"", "wrap"},
+	"writingMode":     {"", "lrtb", "rltb", "tblr", "lr", "rl", "tb"},
+	"zIndex":          {"0", "-1", "10", "+5", "007", "-0", "2147483647", "-2147483648"},
+}
+
+// attrVals[name] = the attrValues entry followed by the attrAlt entries
+var attrVals = func() map[string][]string {
+	m := map[string][]string{}
+	for _, n := range ttml.AttrNames {
+		m[n] = append([]string{attrValues[n]}, attrAlt[n]...)
+	}
+	return m
+}()
+
+// xml:id tables (styles, regions) per id scheme: 0 baseline; 1 hyphen / underscore / dot; 2 non-ASCII name characters;
+// 3 ids that are prefixes of each other; 4 ids that differ in case only (also between a style and a region);
+// 5 element and attribute names of the format as ids; 6 underscore-led numeric ids, a 300-character id
+var idTables = [][2][]string{
+	{{"s0", "s1", "s2"}, {"r0", "r1"}},
+	{{"s-0", "s_1", "s.2"}, {"r-0", "r_1"}},
+	{{"st\u00edl0", "\u6837\u5f0f1", "\u015f2"}, {"r\u00e9gion0", "\u5730\u57df1"}},
+	{{"s1", "s10", "s100"}, {"r1", "r10"}},
+	{{"x", "X", "z"}, {"Z", "r"}},
+	{{"style", "region", "br"}, {"span", "p"}},
+	{{"_1", "_2", strings.Repeat("L", 300)}, {"_", "__"}},
+}
 
 // every attribute alone, then a value that needs escaping, then two combinations
 func ballAttrs() [][]ttml.Attr {
@@ -109,11 +163,16 @@ func allForests() [][]int {
 	return o
 }
 
-var allTexts = []string{"x", "a b", " lead", "trail ", "7", "&", "<", "a<b", "&amp;", "a\u00a0b", "\u00e9", "e\u0301", "\U0001F600", "a\tb", "]]>", "\ufffc", "a>b", `"q"`, "it's", " ", "  two  ", "\u00a0", "\u00a0x", "\u3000x"}
+var allTexts = []string{"x", "a b", " lead", "trail ", "7", "&", "<", "a<b", "&amp;", "a\u00a0b", "\u00e9", "e\u0301", "\U0001F600", "a\tb", "]]>", "\ufffc", "a>b", `"q"`, "it's", " ", "  two  ", "\u00a0", "\u00a0x", "\u3000x",
+	"a\u0085b", "a\u2028b", "\u2028", "\ufffd", "x\u00a0", "a]]>b]]>", "&#65;", "<br/>", "\U0010FFFD"}
 
 var allShapes = [][]int{{1}, {1, 1}, {2}, {0, 1}, {1, 0}, {1, 0, 1}, {1, 1, 1}, {2, 2}, {1, 2}, {2, 1}, {0}}
 
-var startsMs = []int64{1000, 0, 1, 999, 1001, 1500, 2000, 59999, 60000, 3599999, 3600000, 3661001, 35999999, 36000000, 86399999, 359999999, 360000000}
+var startsMs = []int64{1000, 0, 1, 999, 1001, 1500, 2000, 59999, 60000, 3599999, 3600000, 3661001, 35999999, 36000000, 86399999, 359999999, 360000000,
+	9999, 10000, 599999, 600000, 900000, 5430000, 86400000, 3599999999, 3600000000}
+
+// instants that are not whole milliseconds (offset times have no fraction-digit limit): 1500.5 ms, 100 ns, 1 ns
+var startsNs = []int64{1500500000, 100, 1}
 
 type profile struct {
 	titles, copyrights, langs []string
@@ -131,6 +190,10 @@ type profile struct {
 	shapes                    [][]int
 	texts                     []string
 	windents                  int
+	idSchemes                 int  // number of xml:id schemes offered (idTables)
+	attrVals                  bool // an "attr.value" choice below every baseline-valued attribute
+	lex                       bool // lexical variants of each time expression
+	misc2                     bool // declaration form, attribute order, comments, decoys, empty containers
 	// rendering
 	ns, indents, brForms []int
 	inline, misc         bool
@@ -140,13 +203,14 @@ type profile struct {
 
 func ballProfile(thorough bool) *profile {
 	p := &profile{
-		titles: []string{"", "Title test", "a & b <c>"}, copyrights: []string{"", "Copyright test", "© & co"},
-		langs:      []string{"", "en", "fr", "fr-FR", "ja", "no", "zh", "de", "zh-Hans"},
-		frameRates: []int{0, 24, 25, 30, 120}, tickRates: []int{0, 1, 90000, 10000000},
+		titles: allTitles, copyrights: allCopyrights,
+		langs:      allLangs,
+		frameRates: []int{0, 24, 25, 30, 120, 50, 60}, tickRates: []int{0, 1, 90000, 10000000, 1000},
 		forests: allForests(), styleAttrs: ballAttrs(), regionAttrs: ballAttrs(), cueAttrs: ballAttrs(), runAttrs: ballAttrs(),
 		nregions: []int{0, 1, 2}, refs: true, ncues: []int{1, 0, 2}, starts: startsMs, rateInst: true, ends: []int{0, 1, 2, 3, 4, 5},
 		shapes: allShapes, texts: allTexts, windents: 4,
-		ns: []int{0, 1, 2}, indents: []int{0, 1, 2, 3, 4}, brForms: []int{0, 1, 2}, inline: true, misc: true, syntaxes: true, bare: true, brPlace: true,
+		ns: []int{0, 1, 2, 3}, indents: []int{0, 1, 2, 3, 4}, brForms: []int{0, 1, 2, 3}, inline: true, misc: true, syntaxes: true, bare: true, brPlace: true,
+		idSchemes: len(idTables), attrVals: true, lex: true, misc2: true,
 	}
 	if thorough {
 		p.ncues = []int{1, 0, 2, 3}
@@ -154,13 +218,21 @@ func ballProfile(thorough bool) *profile {
 	return p
 }
 
+var allTitles = []string{"", "Title test", "a & b <c>", " lead and trail ", `"q" 'a'`, "\u65e5\u672c\u8a9e \u00e9", "]]>", " "}
+var allCopyrights = []string{"", "Copyright test", "\u00a9 & co", "(c) 2024 <a@b.c>", " \u00a9\u00a0", "&copy;"}
+
+// the five mapped languages bare, with region / script subtags and in upper / mixed case (language tags are
+// case-insensitive), languages the library does not map (not compared), among them three-letter tags that start like a mapped one
+var allLangs = []string{"", "en", "fr", "fr-FR", "ja", "no", "zh", "de", "zh-Hans",
+	"en-GB", "en-us", "ja-JP", "no-NO", "zh-Hant-TW", "EN", "Fr", "JA", "NO", "Zh-CN", "EN-gb", "nb", "enm", "frr", "x-private"}
+
 func one[T any](v T) []T { return []T{v} }
 
 func baseProfile() *profile {
 	return &profile{titles: one(""), copyrights: one(""), langs: one(""), frameRates: one(0), tickRates: one(0), forests: [][]int{{}},
 		styleAttrs: [][]ttml.Attr{nil}, regionAttrs: [][]ttml.Attr{nil}, cueAttrs: [][]ttml.Attr{nil}, runAttrs: [][]ttml.Attr{nil},
 		nregions: one(0), ncues: one(1), starts: one(int64(1000)), ends: one(0), shapes: [][]int{{1}}, texts: one("x"), windents: 1,
-		ns: one(0), indents: one(0), brForms: one(0)}
+		ns: one(0), indents: one(0), brForms: one(0), idSchemes: 1}
 }
 
 // lines core: every shape x run form x <br/> placement x layout
@@ -267,6 +339,15 @@ func startInstants(p *profile, fr, tr int) []ttml.Inst {
 	if tr > 0 {
 		o = append(o, ttml.Ticks(1, tr), ttml.Ticks(int64(tr)+1, tr), ttml.Ticks(int64(tr)*3661+3, tr))
 	}
+	for _, ns := range startsNs {
+		o = append(o, ttml.Inst{Num: ns, Den: 1})
+	}
+	if fr > 0 { // a count of frames with a fraction (12.5f), 100 and 101 frames (a third digit)
+		o = append(o, ttml.Frames(25, 2*fr), ttml.Frames(100, fr), ttml.Frames(101, fr))
+	}
+	if tr > 0 { // a count of ticks with a fraction (1.5t); one tick past 24 h (the product ticks x 10^9 no longer fits 2^53 at 10 MHz)
+		o = append(o, ttml.Ticks(3, 2*tr), ttml.Ticks(86400*int64(tr)+1, tr))
+	}
 	startCache[k] = o
 	return o
 }
@@ -278,13 +359,28 @@ func gen(x *explore.C, p *profile) Case {
 	d.Lang = explore.Pick(x, "lang", p.langs...)
 	d.FrameRate = explore.Pick(x, "frameRate", p.frameRates...)
 	d.TickRate = explore.Pick(x, "tickRate", p.tickRates...)
+	ids := idTables[x.Choose("ids", p.idSchemes)]
+	pickAttrs := func(site string, opts [][]ttml.Attr) []ttml.Attr {
+		at := explore.Pick(x, site, opts...)
+		if !p.attrVals || len(at) == 0 {
+			return at
+		}
+		out := make([]ttml.Attr, len(at))
+		for i, a := range at {
+			out[i] = a
+			if a.Value == attrValues[a.Name] {
+				out[i].Value = explore.Pick(x, "attr.value", attrVals[a.Name]...)
+			}
+		}
+		return out
+	}
 	forest := explore.Pick(x, "forest", p.forests...)
 	for i, par := range forest {
-		s := ttml.Style{ID: "s" + strconv.Itoa(i)}
+		s := ttml.Style{ID: ids[0][i]}
 		if par >= 0 {
-			s.Parent = "s" + strconv.Itoa(par)
+			s.Parent = ids[0][par]
 		}
-		s.Attrs = explore.Pick(x, "style.attrs", p.styleAttrs...)
+		s.Attrs = pickAttrs("style.attrs", p.styleAttrs)
 		d.Styles = append(d.Styles, s)
 	}
 	styleRef := func(site string) string {
@@ -301,9 +397,9 @@ func gen(x *explore.C, p *profile) Case {
 	}
 	nreg := explore.Pick(x, "nregions", p.nregions...)
 	for i := 0; i < nreg; i++ {
-		g := ttml.Region{ID: "r" + strconv.Itoa(i)}
+		g := ttml.Region{ID: ids[1][i]}
 		g.Style = styleRef("region.style")
-		g.Attrs = explore.Pick(x, "region.attrs", p.regionAttrs...)
+		g.Attrs = pickAttrs("region.attrs", p.regionAttrs)
 		d.Regions = append(d.Regions, g)
 	}
 	n := explore.Pick(x, "ncues", p.ncues...)
@@ -343,14 +439,14 @@ func gen(x *explore.C, p *profile) Case {
 				c.Region = d.Regions[v-1].ID
 			}
 		}
-		c.Attrs = explore.Pick(x, "cue.attrs", p.cueAttrs...)
+		c.Attrs = pickAttrs("cue.attrs", p.cueAttrs)
 		shape := explore.Pick(x, "shape", p.shapes...)
 		for _, nr := range shape {
 			line := ttml.Line{}
 			for r := 0; r < nr; r++ {
 				run := ttml.Run{Text: explore.Pick(x, "text", p.texts...)}
 				run.Style = styleRef("run.style")
-				run.Attrs = explore.Pick(x, "run.attrs", p.runAttrs...)
+				run.Attrs = pickAttrs("run.attrs", p.runAttrs)
 				line = append(line, run)
 			}
 			c.Lines = append(c.Lines, line)
@@ -372,8 +468,23 @@ func gen(x *explore.C, p *profile) Case {
 		r.OpenClose = x.Bool("openClose")
 		r.Divs = x.Bool("divs")
 		r.PID = x.Bool("pid")
-		r.TextEsc = x.Choose("textEsc", 3)
+		if p.misc2 {
+			r.TextEsc = x.Choose("textEsc", 6)
+		} else {
+			r.TextEsc = x.Choose("textEsc", 3)
+		}
 		r.Apos = x.Bool("apos")
+	}
+	if p.misc2 {
+		if r.XMLDecl {
+			r.DeclForm = x.Choose("declForm", 4)
+		} else {
+			r.DeclForm = explore.Pick(x, "declForm", 0, 3)
+		}
+		r.AttrOrder = x.Choose("attrOrder", 2)
+		r.Comments = x.Bool("comments")
+		r.Decoy = x.Choose("decoy", 3)
+		r.EmptyMeta = x.Choose("emptyMeta", 3)
 	}
 	for _, c := range d.Cues {
 		bs := syntaxes(c.Begin, d.FrameRate, d.TickRate)
@@ -381,6 +492,10 @@ func gen(x *explore.C, p *profile) Case {
 		if p.syntaxes {
 			r.Begin = append(r.Begin, explore.Pick(x, "begin.syntax", bs...))
 			r.End = append(r.End, explore.Pick(x, "end.syntax", es...))
+			if p.lex {
+				r.BeginLex = append(r.BeginLex, explore.Pick(x, "begin.lex", ttml.LexesOf(r.Begin[len(r.Begin)-1])...))
+				r.EndLex = append(r.EndLex, explore.Pick(x, "end.lex", ttml.LexesOf(r.End[len(r.End)-1])...))
+			}
 		} else {
 			r.Begin = append(r.Begin, bs[0])
 			r.End = append(r.End, es[0])
@@ -455,8 +570,17 @@ func firstRun(lines []ttml.Line, bare [][]bool) *ttml.Run {
 
 // ---------- time sweep ----------
 
-var sweepRates = [][2]int{{0, 0}, {25, 0}, {24, 0}, {30, 0}, {120, 0}, {60, 0}, {1, 0}, {1000, 0}, {0, 1}, {0, 1000}, {0, 90000}, {0, 10000000}, {25, 90000}, {30, 1}}
-var sweepMsExtra = []int64{59999, 60000, 3599999, 3600000, 86399999, 359999999, 360000000, 1234567, 36000000, 4102}
+var sweepRates = [][2]int{{0, 0}, {25, 0}, {24, 0}, {30, 0}, {120, 0}, {60, 0}, {1, 0}, {1000, 0}, {0, 1}, {0, 1000}, {0, 90000}, {0, 10000000}, {25, 90000}, {30, 1}, {50, 0}}
+var sweepMsExtra = []int64{59999, 60000, 3599999, 3600000, 86399999, 359999999, 360000000, 1234567, 36000000, 4102,
+	9999, 10000, 599999, 600000, 900000, 5430000, 86400000, 3599999999, 3600000000}
+
+// wholeCounts drops the fractional-count syntaxes (they have their own product, the lex core, and sit in the ball).
+func wholeCounts(s []ttml.Syntax) []ttml.Syntax {
+	for len(s) > 0 && s[len(s)-1] >= ttml.OffFFrac {
+		s = s[:len(s)-1]
+	}
+	return s
+}
 
 func genTimes(x *explore.C, nms, nfr int) Case {
 	rp := explore.Pick(x, "rates", sweepRates...)
@@ -478,7 +602,7 @@ func genTimes(x *explore.C, nms, nfr int) Case {
 			inst = ttml.Ms(sweepMsExtra[k-nms])
 		}
 	case 1:
-		extra := []int64{int64(3600 * fr), int64(3600*fr + fr - 1), int64(360000*fr - 1)}
+		extra := []int64{int64(3600 * fr), int64(3600*fr + fr - 1), int64(360000*fr - 1), int64(360000 * fr), int64(3600000*fr + fr - 1)}
 		k := x.Choose("frames", nfr+len(extra))
 		if k < nfr {
 			inst = ttml.Frames(int64(k), fr)
@@ -487,7 +611,7 @@ func genTimes(x *explore.C, nms, nfr int) Case {
 		}
 	case 2:
 		t := int64(tr)
-		extra := []int64{t - 1, t, t + 1, 3 * t / 2, 2*t + 1, 60 * t, 3600 * t, 3600*t + 1, 86399*t + t/2, 123456789}
+		extra := []int64{t - 1, t, t + 1, 3 * t / 2, 2*t + 1, 60 * t, 3600 * t, 3600*t + 1, 86399*t + t/2, 123456789, 86400*t + 1, 360000*t + 3}
 		k := x.Choose("ticks", nfr+len(extra))
 		if k < nfr {
 			inst = ttml.Ticks(int64(k), tr)
@@ -495,11 +619,244 @@ func genTimes(x *explore.C, nms, nfr int) Case {
 			inst = ttml.Ticks(extra[k-nfr], tr)
 		}
 	}
-	syn := explore.Pick(x, "syntax", syntaxes(inst, fr, tr)...)
+	syn := explore.Pick(x, "syntax", wholeCounts(syntaxes(inst, fr, tr))...)
 	d := ttml.Doc{FrameRate: fr, TickRate: tr, Cues: []ttml.Cue{{Begin: inst, End: inst, Lines: []ttml.Line{{{Text: "x"}}}}}}
 	r := ttml.DefaultRender(d)
 	r.Begin[0], r.End[0] = syn, syn
 	return Case{Doc: d, Render: r, renderDev: 1}
+}
+
+// ---------- value cores (full products over value tables) ----------
+
+func oneCue(text string) ttml.Cue {
+	return ttml.Cue{Begin: ttml.Ms(1000), End: ttml.Ms(2000), Lines: []ttml.Line{{{Text: text}}}}
+}
+
+// finish sets the write-indent choice and the rendering of a core case; render makes the rendering choices.
+func finish(x *explore.C, d ttml.Doc, windents int, render func(r *ttml.Render)) Case {
+	cs := Case{Doc: d}
+	cs.WIndent = x.Choose("write.indent", windents)
+	mark := len(x.Trace)
+	r := ttml.DefaultRender(d)
+	render(&r)
+	cs.Render = r
+	cs.renderDev = explore.Deviations(x.Trace[mark:])
+	return cs
+}
+
+// values core: every value of every tts:* attribute x the element that carries it (style, region, p, span)
+// x namespace prefixes x quote x attribute order; the cue, the run and the region reference the style
+func genValues(x *explore.C, windents int) Case {
+	carrier := x.Choose("carrier", 4)
+	name := explore.Pick(x, "attr", ttml.AttrNames...)
+	at := []ttml.Attr{{Name: name, Value: explore.Pick(x, "attr.value", attrVals[name]...)}}
+	d := ttml.Doc{Styles: []ttml.Style{{ID: "s0"}}, Regions: []ttml.Region{{ID: "r0", Style: "s0"}}}
+	c := oneCue("x")
+	c.Style, c.Region = "s0", "r0"
+	c.Lines[0][0].Style = "s0"
+	switch carrier {
+	case 0:
+		d.Styles[0].Attrs = at
+	case 1:
+		d.Regions[0].Attrs = at
+	case 2:
+		c.Attrs = at
+	case 3:
+		c.Lines[0][0].Attrs = at
+	}
+	d.Cues = []ttml.Cue{c}
+	return finish(x, d, windents, func(r *ttml.Render) {
+		r.NS = explore.Pick(x, "ns", 0, 1, 3)
+		r.Apos = x.Bool("apos")
+		r.AttrOrder = x.Choose("attrOrder", 2)
+	})
+}
+
+var lexRates = [][2]int{{0, 0}, {24, 0}, {25, 0}, {30, 0}, {50, 0}, {60, 0}, {120, 0}, {0, 1}, {0, 1000}, {0, 90000}, {0, 10000000}, {25, 90000}}
+var lexMs = []int64{0, 1, 999, 1000, 1500, 9999, 10000, 59999, 60000, 599999, 600000, 900000, 3599999, 3600000, 5430000, 35999999, 36000000,
+	86399999, 86400000, 359999999, 360000000, 3599999999, 3600000000}
+
+var lexInstCache = map[[2]int][]ttml.Inst{}
+
+func lexInstants(fr, tr int) []ttml.Inst {
+	k := [2]int{fr, tr}
+	if o, ok := lexInstCache[k]; ok {
+		return o
+	}
+	var o []ttml.Inst
+	for _, ms := range lexMs {
+		o = append(o, ttml.Ms(ms))
+	}
+	for _, ns := range startsNs {
+		o = append(o, ttml.Inst{Num: ns, Den: 1})
+	}
+	if fr > 0 {
+		f := int64(fr)
+		for _, k := range []int64{1, 9, 10, f - 1, f, f + 1, 99, 100, 101, 999, 1000, 3600*f + f - 1, 360000*f + f - 1} {
+			o = append(o, ttml.Frames(k, fr))
+		}
+		for _, h := range []int64{1, 25, 2*f - 1, 2001} { // half frames: 0.5f, 12.5f, (rate-0.5)f, 1000.5f
+			o = append(o, ttml.Frames(h, 2*fr))
+		}
+		o = append(o, ttml.Frames(1001, 4*fr), ttml.Frames(12125, 1000*fr)) // 250.25f, 12.125f
+	}
+	if tr > 0 {
+		t := int64(tr)
+		for _, k := range []int64{1, 9, 10, t - 1, t, t + 1, 999, 1000, 3600*t + 1, 86400*t + 1, 360000*t + 3} {
+			o = append(o, ttml.Ticks(k, tr))
+		}
+		o = append(o, ttml.Ticks(1, 2*tr), ttml.Ticks(3, 2*tr), ttml.Ticks(2*t+1, 2*tr), ttml.Ticks(12125, 1000*tr)) // 0.5t, 1.5t, (rate+0.5)t, 12.125t
+	}
+	lexInstCache[k] = o
+	return o
+}
+
+// lex core: boundary instants x frame/tick rates x every syntax that is exact (fractional frame and tick counts
+// included) x every lexical variant (leading zeros, superfluous fraction digits, nine-digit fractions)
+func genLex(x *explore.C) Case {
+	rp := explore.Pick(x, "rates", lexRates...)
+	fr, tr := rp[0], rp[1]
+	inst := explore.Pick(x, "instant", lexInstants(fr, tr)...)
+	syns := syntaxes(inst, fr, tr)
+	if len(syns) == 0 {
+		syns = []ttml.Syntax{ttml.Clock3}
+		inst = ttml.Ms(1000)
+	}
+	syn := explore.Pick(x, "syntax", syns...)
+	lex := explore.Pick(x, "lex", ttml.LexesOf(syn)...)
+	// the other boundary keeps the baseline form (begin and end must not be confused)
+	other := x.Choose("which", 2)
+	c := oneCue("x")
+	d := ttml.Doc{FrameRate: fr, TickRate: tr}
+	r := ttml.Render{}
+	if other == 0 {
+		c.Begin, c.End = inst, inst
+		d.Cues = []ttml.Cue{c}
+		r = ttml.DefaultRender(d)
+		r.Begin[0], r.End[0] = syn, syn
+		r.BeginLex, r.EndLex = []int{lex}, []int{lex}
+	} else {
+		c.Begin, c.End = ttml.Ms(0), inst
+		d.Cues = []ttml.Cue{c}
+		r = ttml.DefaultRender(d)
+		r.End[0] = syn
+		r.BeginLex, r.EndLex = []int{0}, []int{lex}
+	}
+	return Case{Doc: d, Render: r, renderDev: 1}
+}
+
+// meta core: title x copyright x language tag x escaping form x how absent parts are written
+func genMeta(x *explore.C, windents int) Case {
+	d := ttml.Doc{Cues: []ttml.Cue{oneCue("x")}}
+	d.Title = explore.Pick(x, "title", allTitles...)
+	d.Copyright = explore.Pick(x, "copyright", "", "Copyright test", " \u00a9\u00a0", "&copy;")
+	d.Lang = explore.Pick(x, "lang", allLangs...)
+	return finish(x, d, windents, func(r *ttml.Render) {
+		r.TextEsc = explore.Pick(x, "textEsc", 0, 3, 4, 5)
+		r.EmptyMeta = explore.Pick(x, "emptyMeta", 0, 2)
+	})
+}
+
+// text core: every text x every escaping form x xml:space decoys x span / bare character data x layout
+func genText(x *explore.C, windents int) Case {
+	d := ttml.Doc{Cues: []ttml.Cue{oneCue(explore.Pick(x, "text", allTexts...))}}
+	return finish(x, d, windents, func(r *ttml.Render) {
+		r.TextEsc = x.Choose("textEsc", 6)
+		r.Decoy = x.Choose("decoy", 3) // xml:space="preserve" on tt / xml:space="default" on p and span: no effect on what is returned
+		switch x.Choose("layout", 3) {
+		case 1:
+			r.Indent = 1
+		case 2:
+			r.Indent, r.Inline = 2, true
+		}
+		if ttml.BareOK(d.Cues[0].Lines[0][0], *r, true) {
+			r.Bare[0][0][0] = x.Bool("bare")
+		}
+	})
+}
+
+// syntax core: document-level freedoms of a document that has a title, a style, a region, references and a line break
+func genSyntax(x *explore.C) Case {
+	d := ttml.Doc{Title: "T", Styles: []ttml.Style{{ID: "s0", Attrs: a("color", "red")}}, Regions: []ttml.Region{{ID: "r0", Style: "s0", Attrs: a("origin", "10% 80%")}}}
+	c := oneCue("x")
+	c.Style, c.Region, c.Attrs = "s0", "r0", a("textAlign", "center")
+	c.Lines = []ttml.Line{{{Text: "x", Style: "s0"}, {Text: "y"}}, {{Text: "z", Attrs: a("zIndex", "1")}}}
+	d.Cues = []ttml.Cue{c, oneCue("w")}
+	return finish(x, d, 1, func(r *ttml.Render) {
+		r.XMLDecl = x.Bool("xmlDecl")
+		if r.XMLDecl {
+			r.DeclForm = x.Choose("declForm", 4)
+		} else {
+			r.DeclForm = explore.Pick(x, "declForm", 0, 3)
+		}
+		r.NS = x.Choose("ns", 4)
+		r.AttrOrder = x.Choose("attrOrder", 2)
+		r.Comments = x.Bool("comments")
+		r.Decoy = x.Choose("decoy", 3)
+		r.BrForm = x.Choose("brForm", 4)
+		r.EmptyMeta = x.Choose("emptyMeta", 3)
+		r.Apos = x.Bool("apos")
+		r.Indent = explore.Pick(x, "indent", 0, 2)
+		r.Bare[0][0][1] = x.Bool("bare")
+	})
+}
+
+// ids core: every xml:id scheme x four three-style forests x two regions x every reference from region, p and span
+func genIDs(x *explore.C, windents int) Case {
+	ids := idTables[x.Choose("ids", len(idTables))]
+	forest := explore.Pick(x, "forest", []int{-1, 0, 1}, []int{-1, 0, 0}, []int{1, 2, -1}, []int{-1, -1, -1})
+	var d ttml.Doc
+	for i, par := range forest {
+		s := ttml.Style{ID: ids[0][i]}
+		if par >= 0 {
+			s.Parent = ids[0][par]
+		}
+		d.Styles = append(d.Styles, s)
+	}
+	ref := func(site string) string {
+		if v := x.Choose(site, 4); v > 0 {
+			return ids[0][v-1]
+		}
+		return ""
+	}
+	d.Regions = []ttml.Region{{ID: ids[1][0], Style: ref("region.style")}, {ID: ids[1][1], Style: ids[0][2]}}
+	c := oneCue("x")
+	c.Style = ref("cue.style")
+	if v := x.Choose("cue.region", 3); v > 0 {
+		c.Region = ids[1][v-1]
+	}
+	c.Lines[0][0].Style = ref("run.style")
+	d.Cues = []ttml.Cue{c}
+	return finish(x, d, windents, func(r *ttml.Render) {})
+}
+
+// bulk core: documents with many cues, styles and regions (every cue, style and region distinct, every reference
+// checked): n cues x 20 styles (chains and shared parents) x 12 regions, in two layouts
+func genBulk(x *explore.C) Case {
+	n := explore.Pick(x, "ncues", 13, 100, 257, 1000)
+	var d ttml.Doc
+	for i := 0; i < 20; i++ {
+		s := ttml.Style{ID: fmt.Sprintf("s%d", i), Attrs: a("fontSize", fmt.Sprintf("%d%%", 100+i))}
+		if i%5 != 0 {
+			s.Parent = fmt.Sprintf("s%d", i-i%5) // four children share each fifth style
+		}
+		if i%5 == 4 {
+			s.Parent = fmt.Sprintf("s%d", i-1) // and a chain link
+		}
+		d.Styles = append(d.Styles, s)
+	}
+	for i := 0; i < 12; i++ {
+		d.Regions = append(d.Regions, ttml.Region{ID: fmt.Sprintf("r%d", i), Style: fmt.Sprintf("s%d", (i*7)%20), Attrs: a("origin", fmt.Sprintf("%d%% %d%%", i, 2*i))})
+	}
+	for k := 0; k < n; k++ {
+		c := ttml.Cue{Begin: ttml.Ms(int64(k) * 3599), End: ttml.Ms(int64(k)*3599 + 3000), Style: fmt.Sprintf("s%d", k%20), Region: fmt.Sprintf("r%d", k%12)}
+		c.Lines = []ttml.Line{{{Text: fmt.Sprintf("cue %d", k+1), Style: fmt.Sprintf("s%d", (k+3)%20)}}, {{Text: "second line", Attrs: a("zIndex", strconv.Itoa(k))}}}
+		d.Cues = append(d.Cues, c)
+	}
+	return finish(x, d, 2, func(r *ttml.Render) {
+		r.Indent = explore.Pick(x, "indent", 0, 2)
+		r.Divs = x.Bool("divs")
+	})
 }
 
 // ---------- library value <-> model ----------
@@ -778,8 +1135,74 @@ func classifyTime(cs Case, df ttml.Diff) string {
 		if exactWhole && got == inst.Num-1 {
 			return "ticks-float-truncation"
 		}
+	case ttml.OffFFrac, ttml.OffTFrac:
+		// "12.5f" taken as 12 frames: the fraction of the count dropped
+		rate, name := cs.Doc.FrameRate, "fractional-frame-count-truncated"
+		if syn == ttml.OffTFrac {
+			rate, name = cs.Doc.TickRate, "fractional-tick-count-truncated"
+		}
+		if rate > 0 {
+			cnt := new(big.Int).Mul(big.NewInt(inst.Num), big.NewInt(int64(rate)))
+			cnt.Quo(cnt, new(big.Int).Mul(big.NewInt(inst.Den), big.NewInt(1000000000))) // whole part of the count
+			if cnt.IsInt64() {
+				pred := ttml.Frames(cnt.Int64(), rate)
+				if syn == ttml.OffTFrac {
+					pred = ttml.Ticks(cnt.Int64(), rate)
+				}
+				if pred.Accepts(got) {
+					return name
+				}
+			}
+		}
 	}
 	return ""
+}
+
+// langCasePattern: a mapped language whose tag is not all lower case came back as no language.
+func langCasePattern(cs Case, df ttml.Diff) bool {
+	p := cs.Doc.Lang
+	if i := strings.IndexByte(p, '-'); i >= 0 {
+		p = p[:i]
+	}
+	return df.Got == `""` && p != strings.ToLower(p)
+}
+
+func onlyNonXMLSpace(t string) bool {
+	return t != "" && strings.TrimSpace(t) == "" && strings.Trim(t, " \t\r\n") != ""
+}
+
+// spaceOnlyDroppedPattern: the observed lines are the expected ones without the bare runs that consist of
+// Unicode-but-not-XML white space only (U+00A0, U+2028 ... are text, not white space between elements).
+func spaceOnlyDroppedPattern(cs Case, df ttml.Diff) bool {
+	k, err := strconv.Atoi(df.ID)
+	if err != nil || k >= len(cs.Doc.Cues) || k >= len(cs.Render.Bare) {
+		return false
+	}
+	c := cs.Doc.Cues[k]
+	var lines []string
+	first, hit := true, false
+	for li, l := range c.Lines {
+		var nl ttml.Line
+		for ri, run := range l {
+			bare := li < len(cs.Render.Bare[k]) && ri < len(cs.Render.Bare[k][li]) && cs.Render.Bare[k][li][ri] && ttml.BareOK(run, cs.Render, first)
+			first = false
+			if bare {
+				// the character-data tokens of the run (a CDATA section boundary ends a token)
+				kept := ""
+				for _, tok := range ttml.TextTokens(run.Text, cs.Render.TextEsc) {
+					if onlyNonXMLSpace(tok) {
+						hit = true
+						continue
+					}
+					kept += tok
+				}
+				run.Text = kept
+			}
+			nl = append(nl, run)
+		}
+		lines = append(lines, ttml.CanonLine(nl))
+	}
+	return hit && strings.Join(lines, " / ") == df.Got
 }
 
 // sharedParentPattern: the style.parent differences are exactly "every child of a shared parent
@@ -853,8 +1276,14 @@ func classify(cs Case, diffs []ttml.Diff, prefix string) map[string][]ttml.Diff 
 				key = prefix + ".shared-parent-link-lost"
 			}
 		case "cue.lines":
-			if nonXMLSpacePattern(cs, df) {
+			if spaceOnlyDroppedPattern(cs, df) {
+				key = prefix + ".non-xml-space-only-text-dropped"
+			} else if nonXMLSpacePattern(cs, df) {
 				key = prefix + ".non-xml-space-stripped-as-indentation"
+			}
+		case "lang":
+			if langCasePattern(cs, df) {
+				key = prefix + ".lang-tag-case-not-folded"
 			}
 		}
 		if key == "" {
@@ -1035,6 +1464,7 @@ func run(c *core.Ctx) {
 			}
 			dev := explore.Deviations(x.Trace)
 			size := dev*100000 + len(cs.Doc.Bytes(cs.Render))
+			c.Extra["cases_"+sub]++
 			if doRead {
 				fs, out := CheckRead(cs)
 				nt := uint64(0)
@@ -1074,6 +1504,18 @@ func run(c *core.Ctx) {
 	lrp := lineRefsProfile()
 	explore.Explore(-1, func(x *explore.C) { cs = gen(x, lrp) }, visit("linerefs"))
 	explore.Explore(-1, func(x *explore.C) { cs = gen(x, ap) }, visit("attrs"))
+	// (2b) value cores: full products over the value tables of each field
+	wi := 2
+	if thorough {
+		wi = 4
+	}
+	explore.Explore(-1, func(x *explore.C) { cs = genValues(x, wi) }, visit("values"))
+	explore.Explore(-1, func(x *explore.C) { cs = genLex(x) }, visit("lex"))
+	explore.Explore(-1, func(x *explore.C) { cs = genMeta(x, wi) }, visit("meta"))
+	explore.Explore(-1, func(x *explore.C) { cs = genText(x, wi) }, visit("text"))
+	explore.Explore(-1, func(x *explore.C) { cs = genSyntax(x) }, visit("syntax"))
+	explore.Explore(-1, func(x *explore.C) { cs = genIDs(x, wi) }, visit("ids"))
+	explore.Explore(-1, func(x *explore.C) { cs = genBulk(x) }, visit("bulk"))
 	// (3) deviation ball around the baseline document over all model and rendering choice points
 	bp := ballProfile(thorough)
 	explore.Explore(bound, func(x *explore.C) { cs = gen(x, bp) }, visit("ball"))
@@ -1143,13 +1585,13 @@ func replay(sub string, raw json.RawMessage) (string, bool) {
 func init() {
 	core.Register(&core.Prop{
 		ID: "C03", Level: "exploration",
-		Rule: "a case = (ground-truth TTML model, rendering choices) chosen by the E1 explorer. Model: title, copyright, xml:lang, frameRate, tickRate, styles with parent links over every forest on <=3 nodes, regions with optional style reference, cues (<p begin end>) with style/region references and inline tts:* attributes, lines of runs with style references and inline attributes. Rendering: each boundary in every TTML time-expression syntax that expresses the instant exactly (hh:mm:ss, .f/.ff/.fff, hh:mm:ss:ff, h, m, s, ms, f, t), <br/> between spans / inside the preceding or following span / shared span / first / last / doubled, bare character data vs <span>, indentation and layout, namespace prefix variants, <br/> form, escaping form. Enumeration: exhaustive time sweep, three core products (lines, references, attributes) and every case within B deviations of the baseline over all choice points. Read: ReadFromTTML(render(model)) must denote the model (instants exact; frames/ticks floor or nearest ns). Write: WriteToTTML(model) with each indent option must denote the model to the library reader and to an independent encoding/xml token-walk decoder. Non-trivial = non-baseline case, distinct by (model, rendering)",
+		Rule: "a case = (ground-truth TTML model, rendering choices) chosen by the E1 explorer. Model: title, copyright, xml:lang, frameRate, tickRate, styles with parent links over every forest on <=3 nodes, regions with optional style reference, xml:id values from 7 id schemes, cues (<p begin end>) with style/region references and inline tts:* attributes (24 attributes, 3-9 well-formed values each), lines of runs with style references and inline attributes. Rendering: each boundary in every TTML time-expression syntax that expresses the instant exactly (hh:mm:ss, .f/.ff/.fff, hh:mm:ss:ff, h, m, s, ms with up to nine fraction digits, f, t, fractional f and t counts) and in every lexical variant of it (extra leading zero in hours / count / frames field, superfluous fraction digits, nine-digit fraction), <br/> between spans / inside the preceding or following span / shared span / first / last / doubled, bare character data vs <span>, indentation and layout, 4 namespace prefix variants, 4 <br/> forms, 6 escaping forms (entities, decimal / hexadecimal references, CDATA whole / first character / split at ]]>), XML declaration forms and byte order mark, attribute order, comments, attributes and elements without denotation (xml:space, ttm:role, ttp:timeBase, ttm:desc), empty metadata / styling / layout containers. Enumeration: exhaustive time sweep, core products (lines, references, attributes, attribute values x carrier, time lexical forms, metadata x language tags, texts x escaping, document syntax, id schemes x references, bulk documents up to 1000 cues) and every case within B deviations of the baseline over all choice points. Read: ReadFromTTML(render(model)) must denote the model (instants exact; frames/ticks floor or nearest ns; tts:zIndex as an integer; language tags case-insensitively). Write: WriteToTTML(model) with each indent option must denote the model to the library reader and to an independent encoding/xml token-walk decoder. Non-trivial = non-baseline case, distinct by (model, rendering)",
 		Scope: map[core.Tier]string{
-			core.Quick:    "time sweep (every ms of [0,3 s), every frame and tick count in [0,1000) + tables, 14 (frameRate, tickRate) pairs incl. 60/120/1000 fps, all exact syntaxes) + lines core (11 line shapes x 2 texts x plain/attr x bare/span x br placement x 2 indents x layout x 2 br forms x 2 prefix variants) + refs core (21 forests x <=2 regions x all style/region references) + attrs core (8 attribute subsets on style, region, p, span x 3 namespace variants) + deviation ball B=2 (<=2 cues; 24 attributes, 22 texts, 9 languages, 5 frame rates, 4 tick rates, 17+ instants)",
+			core.Quick:    "time sweep (every ms of [0,3 s), every frame and tick count in [0,1000) + tables up to 1000 h, 15 (frameRate, tickRate) pairs incl. 50/60/120/1000 fps, all exact syntaxes) + lines core (11 line shapes x 2 texts x plain/attr x bare/span x br placement x 2 indents x layout x 2 br forms x 2 prefix variants) + refs core (21 forests x <=2 regions x all style/region references) + attrs core (8 attribute subsets on style, region, p, span x 3 namespace variants) + values core (24 attributes x all 126 values x 4 carriers x 3 prefix variants x quote x attribute order) + lex core (12 rate pairs x 26-60 boundary instants incl. sub-millisecond, 100/1000 frames, ticks past 2^53/10^9, fractional counts x every exact syntax x 2-4 lexical variants x begin/end) + meta core (8 titles x 4 copyrights x 24 language tags x 4 escaping forms x empty-element form) + text core (33 texts x 6 escaping forms x xml:space absent/preserve/default x 3 layouts x bare/span) + syntax core (declaration/BOM x 4 prefix variants x attribute order x comments x decoys x 4 br forms x empty containers x quote x indent x bare) + ids core (7 id schemes x 4 forests x all references) + bulk core (13/100/257/1000 cues x 20 styles x 12 regions) + deviation ball B=2 (<=2 cues; 24 attributes with a value choice below each, 33 texts, 24 language tags, 7 frame rates, 5 tick rates, 29-40 instants, all rendering freedoms)",
 			core.Thorough: "time sweep over [0,20 s) and frame/tick counts [0,10000) + larger cores (4 indents, 3 br forms, 4 write indents) + deviation ball B=3 (<=3 cues)",
 		},
 		Assumptions: []string{"Go toolchain and standard library (encoding/xml is used generically by the independent decoder)", "independent reference codec engine/ref/ttml",
-			"outside the denotation (the format or the property sentence does not carry them): nested spans, raw newlines in character data, white-space-only character data between spans, leading XML white space (space, tab, CR, LF) of bare text at the start of a paragraph or on an indented line, dur=, fractions of more than 3 digits, f/t metrics without a frame/tick rate, xml:lang values outside the five mapped languages (not compared), Metadata.Framerate, sub-millisecond instants and line terminators inside a run in the write direction"},
+			"outside the denotation (the format or the property sentence does not carry them): nested spans, raw newlines in character data, white-space-only character data between spans, leading XML white space (space, tab, CR, LF) of bare text at the start of a paragraph or on an indented line, dur=, clock-time fractions of more than 3 digits, f/t metrics without a frame/tick rate, ttp:frameRateMultiplier / subFrameRate / dropMode (not supported by the library), tts:zIndex=auto (the library's model is an int), several ids in one style attribute (the library's model is one style), the same xml:id on a style and a region (xml:id values are unique), region on div/body/span, xml:lang values outside the five mapped languages (not compared), Metadata.Framerate, sub-millisecond instants and line terminators inside a run in the write direction"},
 		Plain: run, Replay: replay,
 	})
 }
